@@ -542,6 +542,10 @@ func (e *Evaluator) evalObjectIndexExp(
 		return pair
 	}
 
+	if idx == "" {
+		return e.newError(node, fail.ErrPropertyNotFound, idx, object.OBJ_OBJ)
+	}
+
 	// make first letter lowercase on idx
 	idxUpper := strings.ToUpper(idx[:1]) + idx[1:]
 
